@@ -46,12 +46,12 @@ module down exactly once and users before the modules attached to them, whenever
 started node are acyclic — for every choice function.  Missing for the full statement: that the log of the earlier
 phases contains no shutdown events, and that a node which came up has exactly the declared attachments resolved and
 acyclic (both hold on every configuration of the correspondence run). -/
-theorem shutdown_phase_order (mods : List Name) (edges : List (Name × Name)) (pick : List Name → Nat)
+theorem shutdown_phase_order (mods threads : List Name) (edges : List (Name × Name)) (pick : List Name → Nat)
     (hnd : mods.Nodup) (hclosed : ∀ e ∈ edges, e.1 ∈ mods → e.2 ∈ mods)
     (hacyc : ∃ rank : Name → Nat, (∀ e ∈ edges, rank e.2 < rank e.1) ∧ ∀ m ∈ mods, rank m ≤ mods.length) :
-    ShutdownOrder mods edges (shutdownLog mods edges pick) := by
+    ShutdownOrder mods edges (shutdownLog mods threads edges pick) := by
   obtain ⟨rank, hr, hb⟩ := hacyc
-  exact shutdownLog_order mods edges pick rank hnd hclosed hr hb
+  exact shutdownLog_order mods threads edges pick rank hnd hclosed hr hb
 
 example : ∃ rank : Name → Nat, (∀ e ∈ [("u", "io"), ("x", "u")], rank e.2 < rank e.1) ∧
     ∀ m ∈ ["io", "u", "x"], rank m ≤ ["io", "u", "x"].length :=
@@ -126,19 +126,16 @@ def writes_before_first_poll_statement : Prop :=
     r.st.oof = false → r.st.errors = [] →
     WritesBeforeFirstPoll ((allMods cfg r.st.ioDict).filter (fun c => r.st.modules.contains c.name)) r.log
 
-/-- the configuration of the recorded finding: `d` fails in earlyInit, `u` uses its attachment to `d` in initModule -/
+/-- the configuration of the former finding: `d` fails in earlyInit, `u` uses its attachment to `d` in initModule -/
 def findingCfg : Cfg :=
   { mods := [{ (default : ModCfg) with name := "d", failEarly := true },
              { (default : ModCfg) with name := "u", atts := [⟨"a0", some "d", true, 0⟩], touchInit := ["a0"] }],
     dyn := [] }
 
-/-- recorded finding, on the model: a module whose earlyInit raised is handed to its user although it never ran
-initModule — `attached_ready_statement` is false for the code as it is (the node is rejected afterwards:
-`findingCfg_rejected`). -/
-theorem attached_ready_fails : ¬ attached_ready_statement := by
-  intro h
-  have := h findingCfg 10
-  revert this
+/-- the former finding (a module whose earlyInit raised was handed to its user) is repaired: the user's attachment
+raises instead, nobody obtains `d` -/
+theorem finding_repaired : AttachedReady (startup findingCfg 10).log ∧
+    ∀ e ∈ (startup findingCfg 10).log, gotten e = none := by
   decide +kernel
 
 theorem findingCfg_rejected : (startup findingCfg 10).errors ≠ [] ∧
